@@ -236,6 +236,23 @@ def gen_trees(ctx):
     trees += [("bin", "shl", L("I1"), L("I31")), ("bin", "shl", L("I3"), L("I31")), ("bin", "shl", L("Y255"), L("Y1")),
               ("bin", "shl", L("B3"), L("I127")), ("bin", "shl", ("neg", L("I1")), L("I31")), ("bin", "shl", L("Y255"), L("I1")),
               ("bin", "shl", L("I1"), L("I30")), ("bin", "shl", ("neg", L("I2")), L("I31"))]
+    # Round 7 (seed C06-r7-1): an "algebraically equal" shortcut in the folder (-(a - b) folded as b - a, a - (-b) as
+    # a + b, ...) differs from the run time's operator-then-negate only at the EDGES: a float difference of zero (-0 vs
+    # 0), a result one past the range whose mirror image fits.  Fixed, never sampled: unary minus outside, inside either
+    # operand and inside both, over every arithmetic operator and the edge values of each kind (equal operands included).
+    MINI = ("bin", "sub", ("neg", L("I2147483647")), L("I1"))
+    MINB = ("bin", "sub", ("neg", L("B%d" % nc.I128_MAX)), L("B1"))
+    edge = {"I": [L("I0"), L("I1"), L("I2147483647"), ("neg", L("I1")), ("neg", L("I2147483647")), MINI],
+            "B": [L("B0"), L("B1"), L("B%d" % nc.I128_MAX), ("neg", L("B1")), MINB],
+            "F": [L(nc.f2bits(0.0)), L(nc.f2bits(1.5)), ("neg", L(nc.f2bits(0.0))), ("neg", L(nc.f2bits(1.5))), L(nc.f2bits(1.7976931348623157e308))]}
+    for k in "IBF":
+        for op in nc.ARITH:
+            for a in edge[k]:
+                for b in edge[k]:
+                    trees.append(("neg", ("bin", op, a, b)))
+                    if a[0] == "lit" and b[0] == "lit":
+                        trees += [("bin", op, a, ("neg", b)), ("bin", op, ("neg", a), b), ("bin", op, ("neg", a), ("neg", b)),
+                                  ("neg", ("neg", ("bin", op, a, b)))]
     trees += or_fallback_trees()
     n_special = len(trees)
     # depth 1: every folded operator x every pair of leaves; unary minus on every leaf
